@@ -174,6 +174,8 @@ def run_batch(plan, pid, name, scheds, wd, idx, world=None, monitor=None):
         strict = C.tlc_strict(scheds[0]["cfg"], tp, wd, base="TraceServerStrict")
     if name.startswith("model:") and world == "nc" and "MC_NC_" in name:
         strict = C.tlc_strict_nc(name.split(":")[-1], tp, wd)
+    if name.startswith("model:") and world == "stack" and "MC_C20" in name:
+        strict = C.tlc_strict_transport(name.split(":")[-1], tp, wd)
     if not name.startswith("model:") and world == "nc" and STRICT_GENERATED and not any(st["a"].startswith(("rt_", "re_")) for sc in scheds[:3] for st in sc["steps"]):
         # generated netcode histories: tokens and clients are read from the trace itself (TraceNetcodeDyn)
         strict = C.tlc_strict_dyn(os.path.abspath(tp), wd)
